@@ -17,6 +17,7 @@ import multiprocessing as mp
 import os
 import pickle
 import sys
+import time
 import weakref
 from collections import Counter, deque
 from itertools import combinations
@@ -184,12 +185,12 @@ class Env:
                 warm.append(((r.name,), tuple(h)))
         for pool, h in warm:
             ex.run(pool, h)
-        gc.collect()
+        collect()
         self.tables = self.discover_tables()
         b1 = self.table_sizes()
         for pool, h in warm:
             ex.run(pool, h)
-        gc.collect()
+        collect()
         b2 = self.table_sizes()
         self.baseline = b1
         self.baseline_unstable = [
@@ -198,13 +199,25 @@ class Env:
         self.freeze()
 
     def freeze(self):
-        gc.collect()
+        collect()
         gc.freeze()
         self.frozen = True
 
     def unfreeze(self):
         gc.unfreeze()
         self.frozen = False
+
+
+def collect():
+    """The gc event: gc.collect() repeated until a pass finds nothing.  One pass is not enough for nested interned
+    classes: the key of a WeakValueDictionary entry holds its arguments strongly until the value's weakref callback
+    has run, so ``Product[Bint[7], Reals[5]]`` is reclaimed by the first pass and its argument domains by the second."""
+    n = 0
+    for _ in range(6):
+        if not gc.collect():
+            break
+        n += 1
+    return n
 
 
 _ENV = None
@@ -278,7 +291,7 @@ class Exec:
         self.held.clear()
         for s in H.SLOTS:
             e.ns.pop(s, None)
-        gc.collect()
+        collect()
         if not check:
             self.reg = []
             return
@@ -466,12 +479,13 @@ class Exec:
 
     def check_liveness(self):
         reach = H.reachable(self.ms)
+        may = H.retained(self.ms)
         for ent in self.reg:
             if not ent.pred:
                 continue
             alive = ent.wr() is not None
             want = ent.key in reach
-            if alive and not want:
+            if alive and ent.key not in may:
                 raise Violation(
                     "weak:" + ent.cls, "liveness",
                     "object %s of event %d (key %s) is not reachable from any held handle, gc.collect() was run, "
@@ -599,10 +613,10 @@ class Exec:
             H.model_step(ms, ev)
         elif kind == "gc":
             n0 = sum(1 for ent in self.reg if ent.wr() is not None)
-            gc.collect()
+            passes = collect()
             H.model_step(ms, ev)
             n1 = sum(1 for ent in self.reg if ent.wr() is not None)
-            label = "gc:freed" if n1 < n0 else "gc:nothing"
+            label = ("gc:freed-in-%d-passes" % passes) if n1 < n0 else "gc:nothing"
             self.check_liveness()
         elif kind == "ra":
             s = ev[1]
@@ -668,10 +682,15 @@ class Exec:
         site = ("cons:" if rec.kind == "term" else "intern:") + _cls_of(key)
         if must_be_identical:
             if res is not h:
+                extra = {}
+                if key[0] == "Contraction":
+                    extra = {"features": {"contraction_terms": len(key[4])}}
                 raise Violation(
                     site, "roundtrip",
-                    "%s under reflect did not return the identical object (handle of %s)" % (code, rec.src),
+                    "%s under reflect did not return the identical object (handle of %s): got %s for %s"
+                    % (code, rec.src, _kt(self.walk(res, "res", [])), _kt(key)),
                     ["assert res is h_%s, 'round trip under reflect must give back the same object'" % r],
+                    (), extra,
                 )
             del res
             return "%s:identical" % kind
@@ -827,7 +846,7 @@ def snippet(seed, hist, viol):
             L.append("del h_%s" % ev[1])
             held.discard(ev[1])
         elif kind == "gc":
-            L.append("gc.collect()")
+            L.append("while gc.collect(): pass")
         elif kind == "ra":
             s = ev[1]
             L.append("tmp = {s}.copy(); del {s}; {s} = tmp.copy(); del tmp   # a NEW array with equal contents".format(s=s))
@@ -856,7 +875,7 @@ def snippet(seed, hist, viol):
         for r in sorted(held):
             L.append("del h_%s" % r)
         L.append("del s0, s1, s2")
-        L.append("gc.collect()")
+        L.append("while gc.collect(): pass")
         emit_asserts()
     L.append('print("not reproduced")')
     return "\n".join(L) + "\n"
@@ -869,6 +888,7 @@ def make_violation(seed, pool, hist, viol, mode):
     feats = {"check": viol.check, "event": ev[0], "kinds": "+".join(kinds)}
     if len(ev) > 1 and ev[1] in H.RECIPES:
         feats["recipe"] = ev[1]
+    feats.update(viol.extra.get("features", {}))
     case = {"pool": list(pool), "history": hist, "mode": mode}
     key = "%s|%s" % ("+".join(pool), ";".join(":".join(map(str, e)) for e in hist))
     return core.violation(
@@ -878,6 +898,17 @@ def make_violation(seed, pool, hist, viol, mode):
 
 # ---------------------------------------------------------------------------
 # searches
+
+
+_FINDINGS = None
+
+
+def _known(out):
+    """Is this violation covered by an entry of known_findings.json?  (Known ones do not stop a sub-search.)"""
+    global _FINDINGS
+    if _FINDINGS is None:
+        _FINDINGS = core.load_findings(ID)
+    return core.match_finding(_FINDINGS, out["violation"]) is not None
 
 
 def search_merged(pool, depth, seed, rep, ex, collect=None):
@@ -902,8 +933,9 @@ def search_merged(pool, depth, seed, rep, ex, collect=None):
                 ntrans += 1
                 counters.update(ex.counters)
                 if viol is not None:
-                    nviol += 1
-                    rep.add(make_violation(seed, pool, h2, viol, "merged"))
+                    out = make_violation(seed, pool, h2, viol, "merged")
+                    nviol += 0 if _known(out) else 1
+                    rep.add(out)
                     continue
                 counters["event:" + labels[-1]] += 1
                 if ex.declined:
@@ -914,18 +946,24 @@ def search_merged(pool, depth, seed, rep, ex, collect=None):
                     visited[c2] = d + 1
                     queue.append((h2, ms2.copy(), labels[-1]))
             tail = H.observer_events(ms, pool)
-            if tail:
+            ntrans += len(tail)
+            while tail:
                 labels, viol = ex.run(pool, hist, tail=tail)
-                ntrans += len(tail)
                 counters.update(ex.counters)
                 if viol is not None:
+                    out = make_violation(seed, pool, hist + tuple(tail), viol, "merged")
+                    rep.add(out)
+                    j = viol.at - len(hist)
+                    if _known(out) and 0 <= j < len(tail):
+                        tail = tail[:j] + tail[j + 1 :]  # a known finding: run the other round trips without it
+                        continue
                     nviol += 1
-                    rep.add(make_violation(seed, pool, hist + tuple(tail), viol, "merged"))
                 else:
                     for lab in labels[-len(tail):]:
                         counters["event:" + lab] += 1
                     if H.canon(ex.ms, pool) != c:
                         raise HarnessError("observer events changed the canonical state")
+                break
         info["states"] += 1
         info["transitions"] += ntrans
         info["max_depth"] = max(info["max_depth"], d)
@@ -959,8 +997,9 @@ def search_unmerged(pool, depth, seed, rep, ex, collect):
             info["histories"] += 1
             info["events"] += len(hist)
             if viol is not None:
-                nviol += 1
-                rep.add(make_violation(seed, pool, hist, viol, "unmerged"))
+                out = make_violation(seed, pool, hist, viol, "unmerged")
+                nviol += 0 if _known(out) else 1
+                rep.add(out)
             return
         for ev in H.menu(ms, pool, observers=True):
             m2 = ms.copy()
@@ -1010,6 +1049,7 @@ def _cost(job):
 
 def run_job(args):
     job, tier, seed = args
+    t0 = time.time()
     rep = core.Report(ID, tier, seed)
     e = env()
     e.prepare(seed)
@@ -1051,8 +1091,14 @@ def run_job(args):
             if not out["states_equal"]:
                 rep.notes.append("crosscheck %s: merged and un-merged searches reach different canonical states" % pool)
         rep.counters["replayed_prefix_events"] += ex.replayed
+    except Exception as exc:  # a bug of the harness or an exception it does not understand: never a VIOLATION
+        import traceback
+
+        rep.add(core.skip("job %s" % job, "HARNESS-ERROR:" + type(exc).__name__))
+        rep.notes.append("harness error in sub-search %s: %s" % (job, traceback.format_exc()[-1500:]))
     finally:
         gc.enable()
+    out["wall"] = time.time() - t0
     return rep, out
 
 
@@ -1078,6 +1124,10 @@ def explore(tier, seed, report):
                 infos.append(out)
     merged = [o for o in infos if o["job"]["mode"] == "merged" and "info" in o]
     report.extra["sub_searches"] = len(infos)
+    report.extra["slowest_subsearches_s"] = [
+        (round(o.get("wall", 0), 1), o["job"]["mode"], "+".join(o["job"]["pool"]))
+        for o in sorted(infos, key=lambda o: -o.get("wall", 0))[:5]
+    ]
     report.extra["max_depth"] = max([o["info"]["max_depth"] for o in merged] or [0])
     report.extra["per_subsearch_states_total"] = sum(o["info"]["states"] for o in merged)
     report.extra["largest_subsearch"] = max(
